@@ -467,16 +467,27 @@ func init() {
 
 func TestReplay(t *testing.T) { pk.ReplayTest(t) }
 
-type failure struct{ name, site, mode string }
+type failure struct {
+	name, site, mode string
+	tmpl             string // the statement that holds the site ("SITE"); default: let r = SITE;
+}
 
 var failures = []failure{
-	{"throw", `throw("boom")`, "throw"},
-	{"throw-multiline", "throw(\n            \"boom\"\n        )", "throw"},
-	{"div-zero", `10 / zero`, "fatal"},
-	{"mod-zero", `10 % zero`, "fatal"},
-	{"index-oob", `lst[7]`, "fatal"},
-	{"unwrap-none", `nothing.unwrap()`, "catchable"},
-	{"bad-cast", `"\"s\"".parse_json() as int`, "catchable"},
+	{"throw", `throw("boom")`, "throw", ""},
+	{"throw-multiline", "throw(\n            \"boom\"\n        )", "throw", ""},
+	{"div-zero", `10 / zero`, "fatal", ""},
+	{"mod-zero", `10 % zero`, "fatal", ""},
+	{"index-oob", `lst[7]`, "fatal", ""},
+	{"unwrap-none", `nothing.unwrap()`, "catchable", ""},
+	{"bad-cast", `"\"s\"".parse_json() as int`, "catchable", ""},
+	// the failing construct is a whole annotated let whose type is a NAME defined elsewhere in the file
+	{"annotated-let-named-type", `let r: Num = "\"s\"".parse_json();`, "catchable", "SITE"},
+	{"annotated-let-named-object-type", `let r: Rec = "{\"a\": \"s\"}".parse_json();`, "catchable", "SITE"},
+	{"annotated-let-written-out-type", `let r: { a: int } = "{\"a\": \"s\"}".parse_json();`, "catchable", "SITE"},
+	// a throw that is the LAST expression of a block (what follows it belongs to the enclosing construct)
+	{"throw-trailing-in-if", `throw("boom")`, "throw", "let r = { if x > 0 { SITE } 0 };"},
+	{"throw-trailing-in-match", `throw("boom")`, "throw", "let r = match x > 0 { true => { println(\"m\"); SITE }, _ => 0 };"},
+	{"throw-trailing-in-loop", `throw("boom")`, "throw", "for i in 0..3 { if i == 1 { SITE } }"},
 }
 
 func TestTableRuntime(t *testing.T) {
@@ -513,7 +524,12 @@ func TestTableRuntime(t *testing.T) {
 								if inModule {
 									pub = "pub "
 								}
-								fmt.Fprintf(&lib, "fn lvl0(x: int) -> int {\n%s        let r = %s;\n    println(\"UNREACHED\");\n    x\n}\n", prelude, siteExpr(f))
+								lib.WriteString("type Num = int;\ntype Rec = { a: int };\n")
+								stmt := "let r = " + siteExpr(f) + ";"
+								if f.tmpl != "" {
+									stmt = strings.Replace(f.tmpl, "SITE", f.site, 1)
+								}
+								fmt.Fprintf(&lib, "fn lvl0(x: int) -> int {\n%s        %s\n    println(\"UNREACHED\");\n    x\n}\n", prelude, stmt)
 								for d := 1; d <= depth; d++ {
 									fmt.Fprintf(&lib, "fn lvl%d(x: int) -> int {\n    let a = x + 1;\n    lvl%d(a)\n}\n", d, d-1)
 								}
